@@ -1,8 +1,24 @@
 import GceTcb.Base.Line
-/- Driver handler for stream `c02` (stub: replaced when the property's model lands). -/
+import GceTcb.Model.Policy
+import GceTcb.Drive.PolicyLine
+import GceTcb.Drive.C17
+/- Driver handler for stream `c02` (measurement validation). -/
 namespace GceTcb.Drive.C02
-open GceTcb
+open GceTcb GceTcb.Policy GceTcb.Drive.PolicyLine
 
-def handle (_f : Fields) : String := "unimplemented"
+def handle (f : Fields) : String :=
+  match f.get "op" with
+  | "snp" =>
+    let meas : Option Bytes := if f.get "meas" == "nil" then none else some (f.bytes "meas")
+    okrej (snp (parseSev (f.get "g")) ⟨meas, f.nat "vmsas"⟩)
+  | "closure" =>
+    okrej (closureMeasurement (parseSev (f.get "g")) (f.bytes "gd") (f.bytes "ed") (f.bytes "rm") (f.nat "vmsas"))
+  | "sevvalidate" =>
+    okrej (sevValidateMeasurement (parsePem (f.get "pem")) (Drive.C17.dfltSev (f.nat "dflt")) (parseSev (f.get "g")) (f.bytes "gd")
+      (f.bytes "rm") (parseSevPolicy (f.get "base")) (f.bool "ow") (f.nat "vmsas") (f.bool "other"))
+  | "tdxvalidate" =>
+    okrej (tdxValidateMeasurement () () (parseRows (f.get "rows")) (f.bytes "mrtd") (parseTdxBase (f.get "base"))
+      (f.bool "ow") (f.int "ram") (f.bool "other"))
+  | _ => "bad-op"
 
 end GceTcb.Drive.C02
